@@ -62,6 +62,25 @@ def program_leg(r, tier):
     tcommon.drive(r, strict + wit, len(strict), "check_taint", "check_taint_reach",
                   "program leg: every observed source->sink arrival is a reported flow, for all inputs", "run", TABLES, tier, chunk=4,
                   settings_files=progs.TAINT_SETTINGS, key="_programs")
+    # the same flows must be reported when each rule is written once per file and line it is meant for (unit_name / line_num)
+    strict, wit = taint_programs()
+    r.assumptions.append("program leg, restricted rules: one source rule per (file, line of a source call) and one sink rule per "
+                         "file, restricted by unit_name and line_num; expectations as above")
+    tcommon.drive(r, strict + wit, len(strict), "check_taint", None,
+                  "program leg (rules restricted to unit and line): every observed source->sink arrival is a reported flow, for all inputs",
+                  "run", TABLES, tier, chunk=4, settings_files=restricted_settings(strict + wit), key="_programs_restricted_rules")
+
+
+def restricted_settings(programs):
+    from vlib import progs
+    rules = []
+    for p in programs:
+        fname = p.get("file") or (p["name"] + ".py")
+        for n, line in enumerate(p["src"].splitlines(), 1):
+            if "source()" in line:
+                rules.append(progs.SRC(unit_name=fname, line_num=n))
+        rules.append(progs.SNK(unit_name=fname))
+    return progs.taint_settings(rules)
 
 
 def replay(rec):
@@ -70,6 +89,7 @@ def replay(rec):
         from vlib import progs
         from vlib.checks import tcommon
         strict, wit = taint_programs()
-        return tcommon.replay_program(rec, "check_taint", "run", TABLES, strict + wit, settings_files=progs.TAINT_SETTINGS)
+        settings = restricted_settings(strict + wit) if "restricted" in rec["obligation"] else progs.TAINT_SETTINGS
+        return tcommon.replay_program(rec, "check_taint", "run", TABLES, strict + wit, settings_files=settings)
     out = xrun.replay_native(tc.M, "check_propagation", cex.get("slice", {}), cex["cex"])
     return bool(out.get("violated")), out
